@@ -417,6 +417,13 @@ def _covered_elsewhere(prog, k, an):
     b = prog.bodies[k]
     if b.mono and b.defp in an.analysed:
         return True
+    if b.mono and any(prog.bodies[a_].defp == b.defp for a_ in an.analysed if a_ in prog.bodies and prog.bodies[a_].mono):
+        return True          # another instance of the same generic definition was analysed
+    m = re.match(r"^(.*)::\{closure#\d+\}((?:::\{closure#\d+\})*)(\[.*\])?$", k)
+    if m and ((m.group(1) + (m.group(3) or "")) in an.analysed or m.group(1) in an.analysed):
+        # a closure of an analysed body: calls of it are analysed in context, so a closure that never ran sits on a path the
+        # analysis showed infeasible (closures handed to external code are entries of their own)
+        return True
     # derive-generated helper never called at run time
     if k.endswith("::assert_fields_are_eq") or "assert_receiver_is_total_eq" in k:
         return True
